@@ -182,4 +182,27 @@ void h_SEQUENCE_decode_ber_chunked(void) {
 	SEQUENCE_free(&T_td, st1, ASFM_FREE_EVERYTHING); SEQUENCE_free(&T_td, st2, ASFM_FREE_EVERYTHING);
 }
 
+/* C14: ASN_STRUCT_RESET after any outcome leaves an all-zero structure, and decoding into it again behaves exactly as
+ * decoding into a fresh one (evaluated by the native grids) */
+void h_SEQUENCE_decode_ber_reset(void) {
+	VF_BYTES(buf, VF_N); VF_SCALAR(size_t, size);
+	__CPROVER_assume(size <= VF_N);
+	setup();
+	void *st = 0, *fresh = 0;
+	asn_dec_rval_t r0 = SEQUENCE_decode_ber(0, &T_td, &st, buf, size, 0);
+	void *st_saved = st; st = 0;
+	asn_dec_rval_t rf = SEQUENCE_decode_ber(0, &T_td, &st, buf, size, 0); fresh = st; st = st_saved;
+	VF_CANARY();
+	if(st) {
+		SEQUENCE_free(&T_td, st, ASFM_FREE_UNDERLYING_AND_RESET);
+		int zero = 1; for(size_t i = 0; i < sizeof(struct T); i++) if(((unsigned char *)st)[i]) zero = 0;
+		__CPROVER_assert(zero, "C14: ASN_STRUCT_RESET leaves a zeroed structure");
+		asn_dec_rval_t r1 = SEQUENCE_decode_ber(0, &T_td, &st, buf, size, 0);
+		__CPROVER_assert(r1.code == rf.code && r1.consumed == rf.consumed, "C14: decoding into a reset structure reports what decoding into a fresh one reports");
+		if(rf.code == RC_OK) __CPROVER_assert(T_eq((struct T *)st, (struct T *)fresh), "C14: and yields the same value");
+	}
+	(void)r0;
+	SEQUENCE_free(&T_td, st, ASFM_FREE_EVERYTHING); SEQUENCE_free(&T_td, fresh, ASFM_FREE_EVERYTHING);
+}
+
 VF_NATIVE_MAIN
